@@ -252,9 +252,9 @@ PROPS = {
   'model_name': 'Model/Encoder.v (shared with C12)',
   'rule': 'cases = random configurations (incl. zero and 2^32-1 dimensions) x arbitrary histories (fewer / exact / more images than declared, illegal setter arguments, stream writers with buffer sizes 0..4096, owned stream writers stopping '
           'mid-frame, raw/text chunks) x validation on/off x finish or drop x the sink failing at EVERY call index of the history (sampled above 48 calls; all thorough), once and permanently, with and without short writes. Rules: no panic; '
-          'at most one IEND in the accepted bytes; finish Ok with no earlier error => complete chunk stream ending in one IEND; with validation, image count = declared. distinct = (frames, validation, history length, failure plan).',
+          'at most one IEND in the accepted bytes; finish Ok (sink never failed, or no earlier error) => complete chunk stream ending in one IEND; with validation, image count = declared; plus 60 (600) streaming histories x fail-once at every sink call with the caller retrying the failed write/flush: failure at a chunk boundary + all retries Ok + finish Ok => validator accepts and the crate decodes the pixels written. distinct = (frames, validation, history length, failure plan).',
   'trusted_base': ['fault enumeration harness (exploration/fault_enumeration, not proof)'],
-  'assumptions': ['"finish Ok => complete" is read for histories in which no earlier call returned Err'],
+  'assumptions': ['"finish Ok => complete" is checked for every history in which the sink never failed (parameter errors of earlier calls do not excuse anything), for histories whose transient sink failure hit at a chunk boundary and was retried by the caller, and for histories without any earlier Err; it is NOT demanded when a sink failure tore a chunk (bytes of a chunk accepted, then the error) or was not retried: no later call can repair that stream'],
  },
  'C03': {
   'level_text': 'Coq theorem (closed under the global context): for every filter setting incl. Adaptive, every pixel size, every row length (multiple of it) and every list of rows, the decoder\'s row pipeline (equal to the specification: C01) '
